@@ -365,6 +365,9 @@ func ruleGuardScoped(c *Ctx, keep func(string) bool) {
 		}
 	}
 	if keep != nil {
+		if c.R.Count("R-GUARD") < 3 {
+			c.R.Undecided("R-GUARD", "", "instance-floor", "fewer than 3 guarded accesses found for this property's fields")
+		}
 		return
 	}
 	// (ii) general field-write discipline
